@@ -1,11 +1,385 @@
 package main
 
+// Race instrumentation (flag -race): before every statement that reads or writes a field of a
+// struct type declared in the module through a pointer (or a package-level variable), calls to
+// vsched.RR / vsched.RW are inserted, so that the scheduler's happens-before detector sees the
+// access.  Only "pure" access paths (identifier / field / pointer chains) are instrumented, and
+// nothing under the right operand of && / ||, inside function literals, or in conditions that
+// are re-evaluated (loop conditions): such accesses are skipped, never mis-reported.
+
 import (
 	"go/ast"
+	"go/token"
+	"go/types"
+	"strconv"
+	"strings"
 
 	"golang.org/x/tools/go/ast/astutil"
 )
 
-func (r *rewriter) racePrepass() {}
+type access struct {
+	path  ast.Expr // fresh copy of the access path (x.f)
+	write bool
+	site  string
+}
+
+var raceAcc = map[ast.Stmt][]access{}
+
+func (r *rewriter) instrumentable() bool {
+	p := r.pkg.Path()
+	return !strings.Contains(p, "/vh/") && !strings.HasSuffix(p, "/vh") && !strings.Contains(p, "/vz/")
+}
+
+func (r *rewriter) racePrepass() {
+	if !r.instrumentable() {
+		return
+	}
+	ast.Inspect(r.file, func(n ast.Node) bool {
+		var list []ast.Stmt
+		switch x := n.(type) {
+		case *ast.BlockStmt:
+			list = x.List
+		case *ast.CaseClause:
+			list = x.Body
+		case *ast.CommClause:
+			list = x.Body
+		}
+		for _, st := range list {
+			if acc := r.stmtAccesses(st); len(acc) > 0 {
+				raceAcc[st] = acc
+			}
+		}
+		return true
+	})
+}
+
+// stmtAccesses lists the instrumentable accesses evaluated unconditionally by st itself.
+func (r *rewriter) stmtAccesses(st ast.Stmt) []access {
+	var out []access
+	add := func(e ast.Expr, write bool) {
+		if a, ok := r.mkAccess(e, write); ok {
+			out = append(out, a)
+		}
+	}
+	reads := func(e ast.Expr) {
+		if e == nil {
+			return
+		}
+		r.collectReads(e, func(x ast.Expr) { add(x, false) })
+	}
+	lhs := func(e ast.Expr) {
+		e = unparen(e)
+		switch x := e.(type) {
+		case *ast.SelectorExpr:
+			add(x, true)
+			reads(x.X)
+		case *ast.IndexExpr:
+			// m[k] = v on a map held in a field mutates the map: a write to the field's object
+			if t := r.typeOf(x.X); t != nil {
+				if _, ok := t.Underlying().(*types.Map); ok {
+					if sel, ok := unparen(x.X).(*ast.SelectorExpr); ok {
+						add(sel, true)
+						reads(sel.X)
+						reads(x.Index)
+						return
+					}
+				}
+			}
+			reads(x.X)
+			reads(x.Index)
+		case *ast.StarExpr:
+			reads(x.X)
+		case *ast.Ident:
+			if r.isPkgVar(x) {
+				add(x, true)
+			}
+		}
+	}
+	switch s := st.(type) {
+	case *ast.AssignStmt:
+		for _, e := range s.Rhs {
+			reads(e)
+		}
+		for _, e := range s.Lhs {
+			if s.Tok == token.DEFINE {
+				continue
+			}
+			lhs(e)
+			if s.Tok != token.ASSIGN { // x.f += 1 also reads
+				reads(e)
+			}
+		}
+	case *ast.IncDecStmt:
+		lhs(s.X)
+		reads(s.X)
+	case *ast.ExprStmt:
+		if call, ok := s.X.(*ast.CallExpr); ok && r.builtin(call.Fun) == "delete" && len(call.Args) == 2 {
+			if sel, ok := unparen(call.Args[0]).(*ast.SelectorExpr); ok {
+				add(sel, true)
+				reads(sel.X)
+				reads(call.Args[1])
+				break
+			}
+		}
+		reads(s.X)
+	case *ast.ReturnStmt:
+		for _, e := range s.Results {
+			reads(e)
+		}
+	case *ast.IfStmt:
+		if s.Init == nil {
+			reads(s.Cond)
+		}
+	case *ast.SwitchStmt:
+		if s.Init == nil && s.Tag != nil {
+			reads(s.Tag)
+		}
+	case *ast.SendStmt:
+		reads(s.Chan)
+		reads(s.Value)
+	case *ast.GoStmt:
+		for _, a := range s.Call.Args {
+			reads(a)
+		}
+		if sel, ok := s.Call.Fun.(*ast.SelectorExpr); ok {
+			reads(sel.X)
+		}
+	case *ast.DeferStmt:
+		for _, a := range s.Call.Args {
+			reads(a)
+		}
+	case *ast.RangeStmt:
+		reads(s.X)
+	case *ast.SelectStmt:
+		for _, cc := range s.Body.List {
+			c := cc.(*ast.CommClause)
+			switch cm := c.Comm.(type) {
+			case *ast.SendStmt:
+				reads(cm.Chan)
+				reads(cm.Value)
+			case *ast.ExprStmt:
+				reads(cm.X)
+			case *ast.AssignStmt:
+				for _, e := range cm.Rhs {
+					reads(e)
+				}
+			}
+		}
+	}
+	return out
+}
+
+// collectReads walks e and reports field selectors / package variables that are evaluated
+// unconditionally; it does not descend into function literals, right operands of && and ||,
+// or operands of & (address-of is not an access).
+func (r *rewriter) collectReads(e ast.Expr, f func(ast.Expr)) {
+	switch x := e.(type) {
+	case nil:
+	case *ast.ParenExpr:
+		r.collectReads(x.X, f)
+	case *ast.FuncLit:
+	case *ast.BinaryExpr:
+		r.collectReads(x.X, f)
+		if x.Op != token.LAND && x.Op != token.LOR {
+			r.collectReads(x.Y, f)
+		}
+	case *ast.UnaryExpr:
+		if x.Op == token.AND {
+			// &x.f : only the base path is read
+			if sel, ok := unparen(x.X).(*ast.SelectorExpr); ok {
+				r.collectReads(sel.X, f)
+			}
+			return
+		}
+		r.collectReads(x.X, f)
+	case *ast.SelectorExpr:
+		if s := r.info.Selections[x]; s != nil && s.Kind() == types.FieldVal {
+			f(x)
+		}
+		if s := r.info.Selections[x]; s != nil {
+			r.collectReads(x.X, f)
+		}
+	case *ast.Ident:
+		if r.isPkgVar(x) {
+			f(x)
+		}
+	case *ast.CallExpr:
+		if tv, ok := r.info.Types[x.Fun]; !ok || !tv.IsType() {
+			if b := r.builtin(x.Fun); b == "" {
+				r.collectReads(x.Fun, f)
+			}
+		}
+		for _, a := range x.Args {
+			r.collectReads(a, f)
+		}
+	case *ast.IndexExpr:
+		r.collectReads(x.X, f)
+		r.collectReads(x.Index, f)
+	case *ast.SliceExpr:
+		r.collectReads(x.X, f)
+		r.collectReads(x.Low, f)
+		r.collectReads(x.High, f)
+		r.collectReads(x.Max, f)
+	case *ast.StarExpr:
+		r.collectReads(x.X, f)
+	case *ast.TypeAssertExpr:
+		r.collectReads(x.X, f)
+	case *ast.CompositeLit:
+		for _, el := range x.Elts {
+			if kv, ok := el.(*ast.KeyValueExpr); ok {
+				r.collectReads(kv.Value, f)
+			} else {
+				r.collectReads(el, f)
+			}
+		}
+	case *ast.KeyValueExpr:
+		r.collectReads(x.Value, f)
+	}
+}
+
+func (r *rewriter) isPkgVar(id *ast.Ident) bool {
+	v, ok := r.info.Uses[id].(*types.Var)
+	if !ok || v.IsField() || v.Pkg() == nil {
+		return false
+	}
+	if !strings.HasPrefix(v.Pkg().Path(), modPath) || strings.Contains(v.Pkg().Path(), "/vz/") {
+		return false
+	}
+	return v.Parent() == v.Pkg().Scope() && !syncType(v.Type())
+}
+
+func syncType(t types.Type) bool {
+	// a struct- or array-valued variable/field is only an address computation when it is the base
+	// of a further selection or a method call; its components are instrumented individually
+	switch t.Underlying().(type) {
+	case *types.Struct, *types.Array:
+		return true
+	}
+	s := t.String()
+	for _, p := range []string{"sync.Mutex", "sync.RWMutex", "sync.Once", "sync.WaitGroup", "sync.Pool", "sync.Cond", "sync.Map", "atomic."} {
+		if strings.Contains(s, p) && !strings.HasPrefix(s, "*") && !strings.HasPrefix(s, "[]") && !strings.HasPrefix(s, "map") {
+			return true
+		}
+	}
+	return false
+}
+
+// mkAccess validates the access path and returns a fresh copy of it.
+func (r *rewriter) mkAccess(e ast.Expr, write bool) (access, bool) {
+	switch x := e.(type) {
+	case *ast.Ident:
+		if !r.isPkgVar(x) {
+			return access{}, false
+		}
+		return access{path: ast.NewIdent(x.Name), write: write, site: r.fname + ":" + x.Name}, true
+	case *ast.SelectorExpr:
+		sel := r.info.Selections[x]
+		if sel == nil || sel.Kind() != types.FieldVal {
+			return access{}, false
+		}
+		fld := sel.Obj().(*types.Var)
+		if fld.Pkg() == nil || !strings.HasPrefix(fld.Pkg().Path(), modPath) || strings.Contains(fld.Pkg().Path(), "/vz/") {
+			return access{}, false
+		}
+		if syncType(fld.Type()) {
+			return access{}, false
+		}
+		// the base must be reached through a pointer (shared object) or be a package variable
+		bt := r.typeOf(x.X)
+		if bt == nil {
+			return access{}, false
+		}
+		if _, isPtr := bt.Underlying().(*types.Pointer); !isPtr {
+			root := rootIdent(x.X)
+			if root == nil || !r.isPkgVar(root) {
+				return access{}, false
+			}
+		}
+		cp, ok := r.clonePath(x)
+		if !ok {
+			return access{}, false
+		}
+		recv := types.TypeString(sel.Recv(), func(p *types.Package) string { return p.Name() })
+		recv = strings.TrimPrefix(recv, "*")
+		return access{path: cp, write: write, site: recv + "." + fld.Name()}, true
+	}
+	return access{}, false
+}
+
+func rootIdent(e ast.Expr) *ast.Ident {
+	for {
+		switch x := e.(type) {
+		case *ast.Ident:
+			return x
+		case *ast.SelectorExpr:
+			e = x.X
+		case *ast.ParenExpr:
+			e = x.X
+		case *ast.StarExpr:
+			e = x.X
+		default:
+			return nil
+		}
+	}
+}
+
+// clonePath copies an identifier / selector / deref chain; anything else is refused.
+func (r *rewriter) clonePath(e ast.Expr) (ast.Expr, bool) {
+	switch x := e.(type) {
+	case *ast.Ident:
+		if _, ok := r.info.Uses[x].(*types.Var); !ok {
+			if _, ok := r.info.Defs[x].(*types.Var); !ok {
+				return nil, false
+			}
+		}
+		return ast.NewIdent(x.Name), true
+	case *ast.SelectorExpr:
+		if s := r.info.Selections[x]; s == nil || s.Kind() != types.FieldVal {
+			// package qualified identifier (pkg.Var) is fine
+			if id, ok := x.X.(*ast.Ident); ok {
+				if _, isPkg := r.info.Uses[id].(*types.PkgName); isPkg {
+					return &ast.SelectorExpr{X: ast.NewIdent(id.Name), Sel: ast.NewIdent(x.Sel.Name)}, true
+				}
+			}
+			return nil, false
+		}
+		b, ok := r.clonePath(x.X)
+		if !ok {
+			return nil, false
+		}
+		return &ast.SelectorExpr{X: b, Sel: ast.NewIdent(x.Sel.Name)}, true
+	case *ast.ParenExpr:
+		return r.clonePath(x.X)
+	case *ast.StarExpr:
+		b, ok := r.clonePath(x.X)
+		if !ok {
+			return nil, false
+		}
+		return &ast.StarExpr{X: b}, true
+	}
+	return nil, false
+}
 
 func (r *rewriter) racePost(c *astutil.Cursor, e ast.Expr) {}
+
+// raceInsert is called from post for every statement; it inserts the recorded accesses.
+func (r *rewriter) raceInsert(c *astutil.Cursor, st ast.Stmt) {
+	acc := raceAcc[st]
+	if len(acc) == 0 || c.Index() < 0 {
+		return
+	}
+	seen := map[string]bool{}
+	for _, a := range acc {
+		key := types.ExprString(a.path) + strconv.FormatBool(a.write)
+		if seen[key] {
+			continue
+		}
+		seen[key] = true
+		fn := "RR"
+		if a.write {
+			fn = "RW"
+		}
+		callx := call(r.vs(fn), &ast.UnaryExpr{Op: token.AND, X: a.path}, &ast.BasicLit{Kind: token.STRING, Value: strconv.Quote(a.site)})
+		c.InsertBefore(&ast.ExprStmt{X: callx})
+	}
+}
